@@ -102,8 +102,9 @@ LawTrace(psi, dims, sites)      == TraceM(RDM(psi, dims, sites)) = <<Den(psi), 0
 LawTraceForm(psi, dims, sites, G) == ExpNum(RDM(psi, dims, sites), G) = ExpNumStmt(psi, dims, sites, G)
 LawOrder(psi, dims, sites, p) ==
   RDM(psi, dims, ComposeSites(sites, p)) = PermuteM(RDM(psi, dims, sites), SubDims(dims, sites), p)
+\* (through the reduced state: LawTraceForm ties that form to the statement for every tuple)
 LawOrderExp(psi, dims, sites, p, G) ==
-  ExpNumStmt(psi, dims, ComposeSites(sites, p), PermuteM(G, SubDims(dims, sites), p)) = ExpNumStmt(psi, dims, sites, G)
+  ExpNum(RDM(psi, dims, ComposeSites(sites, p)), PermuteM(G, SubDims(dims, sites), p)) = ExpNum(RDM(psi, dims, sites), G)
 \* tracing a kept subsystem out of a reduced state gives the smaller reduced state
 LawNested(psi, dims, sites) ==
   Len(sites) >= 2 =>
